@@ -28,6 +28,7 @@ def bounds(tier):
 
 def cases(tier, seed):
     b = bounds(tier)
+    yield ('giant', 210000 if tier == 'quick' else 420000)
     for v in enum.bool_vectors(1, b['sel_len']):
         yield ('sel', v)
     for K, menu in b['struct']:
@@ -39,6 +40,10 @@ def cases(tier, seed):
 
 def decode_case(c):
     return tuple(tuple(x) if isinstance(x, list) else x for x in c)
+
+
+def signature(kind, case):
+    return kind
 
 
 def nm(x):
@@ -76,10 +81,55 @@ def ref_vectors(sel):
     return subset, chain
 
 
+def check_giant(case):
+    """Larger scope: index values beyond 100000 at every level (every second cycle selected, so every chain is one cycle)."""
+    import emd._cycles_support as cs
+    from emd.cycles import get_subset_vector, get_chain_vector
+    K = case[1]
+    sel = (np.arange(K) % 2 == 0)
+    cv = np.repeat(np.arange(K), 2)
+    cv[1::2] = -1                      # one sample per cycle followed by one unlabelled sample
+    viols = []
+    d = 'giant structure: %d cycles, every second one selected' % K
+    try:
+        sv = np.asarray(get_subset_vector(sel))
+        chv = np.asarray(get_chain_vector(sv))
+    except Exception as e:
+        return Outcome(cls='giant', viols=[('giant:raise:%s' % type(e).__name__, '%s raised %r' % (d, e))])
+    rsub = np.where(sel, np.cumsum(sel) - 1, -1)
+    nsub = int(sel.sum())
+    if not np.array_equal(sv.reshape(-1), rsub):
+        viols.append(('giant:get_subset_vector', '%s: subset vector wrong' % d))
+    if not np.array_equal(chv.reshape(-1), np.arange(nsub)):
+        viols.append(('giant:get_chain_vector', '%s: chain vector wrong' % d))
+    if viols:
+        return Outcome(cls='giant', viols=viols)
+    trans = 2
+    probe_sub = sorted(set([0, 1, 99999, 100000, 100001, nsub - 2, nsub - 1]))
+    for s_ in probe_sub:
+        c = 2 * s_
+        checks = [('map_cycle_to_samples', arr(cs.map_cycle_to_samples(cv, c)), (2 * c,)),
+                  ('map_subset_to_cycle', arr(cs.map_subset_to_cycle(sv, s_)), (c,)),
+                  ('map_chain_to_subset', arr(cs.map_chain_to_subset(chv, s_)), (s_,)),
+                  ('map_chain_to_cycle', arr(cs.map_chain_to_cycle(chv, sv, s_)), (c,)),
+                  ('map_subset_to_sample', arr(cs.map_subset_to_sample(sv, cv, s_)), (2 * c,)),
+                  ('map_chain_to_samples', arr(cs.map_chain_to_samples(chv, sv, cv, s_)), (2 * c,)),
+                  ('map_sample_to_chain', nm(cs.map_sample_to_chain(chv, sv, cv, 2 * c)), s_),
+                  ('map_sample_to_subset', nm(cs.map_sample_to_subset(sv, cv, 2 * c + 1)), None),
+                  ('map_cycle_to_chain', nm(cs.map_cycle_to_chain(chv, sv, c + 1)) if c + 1 < K else None, None)]
+        trans += len(checks)
+        for name, got, want in checks:
+            if got != want:
+                viols.append(('giant:%s' % name, '%s: %s at subset index %d gave %r expected %r' % (d, name, s_, got, want)))
+    return Outcome(cls='giant', transitions=trans, viols=viols, nontrivial=True)
+
+
 def check_case(case):
     import emd._cycles_support as cs
     from emd.cycles import get_subset_vector, get_chain_vector
     kind = case[0]
+    if kind == 'giant':
+        return check_giant(case)
     sel = case[1]
     K = len(sel)
     viols = []
@@ -119,6 +169,12 @@ def check_case(case):
     if arr(sv) != tuple(rsub):
         viols.append(('get_subset_vector', '%s: got %s expected %s' % (d, sv.tolist(), rsub)))
         return Outcome(cls=kind, viols=viols)
+    if kind == 'sel' and K <= 9:
+        # the same flags as a plain list of bools / a tuple of 0-1 / an integer array
+        for form, val in (('list', [bool(v) for v in sel]), ('tuple', tuple(int(v) for v in sel)), ('uint8', np.array(sel, dtype=np.uint8))):
+            ok2, sv2 = call('get_subset_vector', get_subset_vector, val)
+            if ok2 and arr(sv2) != tuple(rsub):
+                viols.append(('get_subset_vector:%s-input' % form, '%s passed as %s: got %s expected %s' % (d, form, np.asarray(sv2).tolist(), rsub)))
     ok, chv = call('get_chain_vector', get_chain_vector, sv)
     if not ok:
         return Outcome(cls=kind, viols=viols)
@@ -232,6 +288,6 @@ def snippet(case, kind):
 
 
 def nonvacuity(rep, ctx):
-    if not {'sel', 'struct'} <= set(rep.classes):
+    if not {'sel', 'struct', 'giant'} <= set(rep.classes):
         return ['vacuous: outcome classes %r' % dict(rep.classes)]
     return []
